@@ -402,7 +402,7 @@ func Render(toks []string, layout int, r *Rand) (string, []TokPos) {
 	return sb.String(), pos
 }
 
-var commentBodies = []string{"c", "send [USD 1]", "é ü 日本", "a * b", "x/y", "\"q\"", "{ }", "remaining kept", "1/2 50%"}
+var commentBodies = []string{"c", "send [USD 1]", "é ü 日本", "😀 𝔘", "a * b", "x/y", "\"q\"", "{ }", "remaining kept", "1/2 50%"}
 
 func separator(prev, next string, layout int, r *Rand) string {
 	if layout == 0 {
@@ -844,7 +844,7 @@ func (g *Gen) exprOf(typ string, depth int) *GExpr {
 		return g.varOf("portion")
 	case "string":
 		if g.r.Chance(7, 10) {
-			return &GExpr{Kind: XString, S: g.r.Pick([]string{"k", "k", "k", "key", "key", "hello world", "", "é", "a\\\"b", "fee", "ends with a quote\\\""})}
+			return &GExpr{Kind: XString, S: g.r.Pick([]string{"k", "k", "k", "key", "key", "hello world", "", "é", "😀", "a😀𝔘b", "a\\\"b", "fee", "ends with a quote\\\""})}
 		}
 		return g.varOf("string")
 	}
